@@ -503,11 +503,11 @@ func aliasedVsFresh(s *Scen) (same bool, al, fr RegSnap, ka, kf int) {
 	}
 	kf = execGo(regs2, &in2)
 	fr = normOf(snap(regs2[rF]))
+	if ka != 0 && kf != 0 {
+		return true, al, fr, ka, kf // both calls are rejected with a panic
+	}
 	if ka != kf {
 		return false, al, fr, ka, kf
-	}
-	if ka != 0 {
-		return true, al, fr, ka, kf
 	}
 	return snapEq(al, fr), al, fr, ka, kf
 }
@@ -520,6 +520,9 @@ func (s *Scen) site() string {
 	if usesTmpAlias {
 		return "tmp-alias:" + s.Op + ":" + s.Pat
 	}
+	if s.Op == "Abs" && x.Val == 0 {
+		return "Abs:v=0" // c.Reset() keeps the receiver's Order and N, with or without aliasing
+	}
 	if !isOpd {
 		return "no-alias:" + s.Op
 	}
@@ -528,10 +531,6 @@ func (s *Scen) site() string {
 	case "Log1pExp":
 		if v > 18.0 && v <= 33.3 {
 			return "Log1pExp:c=a:18<v<=33.3"
-		}
-	case "Abs":
-		if v == 0 {
-			return "Abs:c=a:v=0"
 		}
 	}
 	if arity(s.Op) == 2 && s.Op != "Min" && s.Op != "Max" {
